@@ -524,6 +524,43 @@ where
     }
 }
 
+#[cfg(feature = "verif-hooks")]
+impl<T, P, B> Checkout<T, P, B>
+where
+    T: Transport + 'static,
+    P: Protocol<T::IO, B> + Send + 'static,
+    P::Connection: PoolableConnection<B>,
+    B: Send + 'static,
+{
+    /// Read-only description of the checkout's stage (verification seam).
+    pub(in crate::client) fn verif_stage(&self) -> String {
+        let waiter = match &self.waiter {
+            Waiting::Idle(_) => "idle",
+            Waiting::Connecting(_) => "connecting",
+            Waiting::NoPool => "nopool",
+        };
+        let inner = match &self.inner {
+            InnerCheckoutConnecting::Waiting => "waiting".to_string(),
+            InnerCheckoutConnecting::Connected => "connected".to_string(),
+            InnerCheckoutConnecting::Connecting(c) => format!("connecting({})", c.verif_stage()),
+            InnerCheckoutConnecting::ConnectingWithDelayDrop(Some(c)) => {
+                format!("connecting-dd({})", c.verif_stage())
+            }
+            InnerCheckoutConnecting::ConnectingWithDelayDrop(None) => "connecting-dd(stolen)".into(),
+            InnerCheckoutConnecting::ConnectingDelayed(c) => {
+                format!("delayed({})", c.verif_stage())
+            }
+        };
+        format!(
+            "checkout[token={} waiter={} inner={} holds={}]",
+            self.token.verif_index(),
+            waiter,
+            inner,
+            self.connection.is_some()
+        )
+    }
+}
+
 #[cfg(test)]
 mod test {
     use super::*;
